@@ -218,9 +218,14 @@ func c05RunForms(w *storage.VerifC05Writer, base *Wrapper, op c05FormsOp) {
 			panic(err)
 		}
 	}
-	var answers []string
+	var answers, callSeqs []string
+	var calls []string
+	b.Gate.Calls = &calls
+	oneTime := map[string]string{"oauth/code/": "code/", "oauth/nonce/": "vpnonce/", "s2s/nonce/": "s2s/",
+		"oauth/requestobject/": "reqobj/", "user/redirect/": "redirect/", "nonceonce/": "jti/"}
 	for _, f := range op.Reqs {
 		f := f
+		calls = calls[:0]
 		if f.Dt > 0 && b.Advance != nil {
 			b.Advance(time.Duration(f.Dt) * time.Second)
 		}
@@ -347,7 +352,19 @@ func c05RunForms(w *storage.VerifC05Writer, base *Wrapper, op c05FormsOp) {
 			return c05Ans(err, "")
 		}()
 		answers = append(answers, ans)
+		// the underlying store calls this request made on one-time-store keys, in order
+		var seq []string
+		for _, c := range calls {
+			i := strings.Index(c, ":")
+			for prefix, kind := range oneTime {
+				if strings.HasPrefix(c[i+1:], prefix) {
+					seq = append(seq, c[:i+1]+kind+strings.TrimPrefix(c[i+1:], prefix))
+				}
+			}
+		}
+		callSeqs = append(callSeqs, strings.Join(seq, ","))
 	}
+	b.Gate.Calls = nil
 	var live []string
 	for _, k := range b.Keys() {
 		for prefix, kind := range map[string]string{"oauth/code/": "code/", "oauth/nonce/": "vpnonce/", "s2s/nonce/": "s2s/",
@@ -361,7 +378,7 @@ func c05RunForms(w *storage.VerifC05Writer, base *Wrapper, op c05FormsOp) {
 	raw, _ := json.Marshal(op)
 	var m map[string]interface{}
 	_ = json.Unmarshal(raw, &m)
-	w.Raw(m, fmt.Sprintf("forms ans=%s live=[%s]", strings.Join(answers, ";"), strings.Join(live, ",")))
+	w.Raw(m, fmt.Sprintf("forms ans=%s live=[%s] calls=[%s]", strings.Join(answers, ";"), strings.Join(live, ","), strings.Join(callSeqs, ";")))
 }
 
 func c05Pick(rng *rand.Rand, xs ...string) string { return xs[rng.Intn(len(xs))] }
